@@ -202,6 +202,8 @@ func checkC09(c *Check) {
 				return ok && len(r.Results) == 1 && !vConstBool(false)(r.Results[0])
 			}
 			exhausted := edgesWhere(m, cBool(okV), false)
+			// a nil matcher has no constraints at all (what an unconstrained leaf holds): true there is vacuous
+			exhausted = union(exhausted, edgesWhere(m, cCmp(token.EQL, vParam(m, 0), vNil), true))
 			in, path := Query{Fn: m, Cut: exhausted}.FromEntry(mayBeTrue)
 			if in == nil && len(exhausted) > 0 {
 				c.OK(key+":true-only-at-exhaustion", p.FuncPos(m), "a possibly-true return is reachable only through the iterator-exhausted edge", numInstrs(m))
